@@ -27,10 +27,7 @@ SumLen(n) == IF n = 0 THEN 0 ELSE SumLen(n - 1) + Lines[n].l + 2
 Req == SumLen(K)
 GenF(c) == IF Req = 0 THEN (IF c = 0 THEN "either" ELSE "ok")       \* nothing to write; cap 0 is refused as EINVAL
            ELSE IF c < Req THEN "fail" ELSE "ok"
-\* the defect-relevant shape: the capacity is too small although every single line would fit
-EachLineFits(c) == \A i \in 1 .. K : Lines[i].l + 2 <= c
-GenShape(c) == IF c >= Req THEN "cap>=required" ELSE IF c > 0 /\ EachLineFits(c) THEN "cap<required/each-line-fits"
-               ELSE "cap<required/some-line-too-long"
+GenShape(c) == IF c >= Req THEN "cap>=required" ELSE "cap<required"
 
 \* ---- checked on the spec
 Inside == SpansInside(Lines, Len(s)) /\ SpansOrdered(Lines)
